@@ -99,6 +99,42 @@ Proof.
   apply K; [assumption | lia].
 Qed.
 
+(* ---------- the packed convolution / fully connected scale records ---------- *)
+Lemma conv_packed_eq_reference_lemma p ifm w ofm :
+  1 <= p -> 0 < dm ifm -> 0 < dm w -> 0 < dm ofm ->
+  let v := conv_packed_scale p false ifm w ofm in
+  fst v <> 0 -> snd v <= 62 -> same_value v (tfl_conv_params p ifm w ofm) 0.
+Proof.
+  intros Hp H1 H2 Ho v Hv Hs. subst v. unfold conv_packed_scale, conv_effective_scale, tfl_conv_params in *.
+  set (X := fl_div 53 (fl_mul p ifm w) ofm) in *.
+  assert (0 < dm X) by (apply fl_div_pos; [lia | apply fl_mul_pos; assumption | assumption]).
+  destruct X as [mx ex]. cbn [dm de] in *.
+  pose proof (q_scale_vs_tfl mx ex 0 H) as K. cbv zeta in K. rewrite Z.add_0_r in K.
+  apply K; [assumption | lia].
+Qed.
+
+(* int16 with an int64 bias: the packed pair is the run-time reduction the reference kernel applies
+   (MultiplyByQuantizedMultiplier(int64_t, ...)) to the reference multiplier *)
+Lemma conv_packed_reduced_eq_reference_lemma p ifm w ofm :
+  1 <= p -> 0 < dm ifm -> 0 < dm w -> 0 < dm ofm ->
+  let v := conv_packed_scale p false ifm w ofm in
+  fst v <> 0 -> snd v <= 62 ->
+  conv_packed_scale p true ifm w ofm = tfl_reduce (tfl_conv_params p ifm w ofm).
+Proof.
+  intros Hp H1 H2 Ho v Hv Hs.
+  pose proof (conv_packed_eq_reference_lemma p ifm w ofm Hp H1 H2 Ho Hv Hs) as [E1 E2]. fold v in E1, E2.
+  subst v. unfold conv_packed_scale, conv_effective_scale, tfl_conv_params in *.
+  set (X := fl_div 53 (fl_mul p ifm w) ofm) in *.
+  assert (0 < dm X) by (apply fl_div_pos; [lia | apply fl_mul_pos; assumption | assumption]).
+  unfold r_scale. destruct (q_scale (dm X) (de X)) as [q s] eqn:Q. cbn [fst snd] in *.
+  assert (GenScaling.quantise_scale (Dy (dm X) (de X)) = (q, s)) as G by (rewrite gen_quantise_scale_eq; exact Q).
+  destruct (quantise_scale_nonzero_lemma _ _ _ _ H G Hv) as [_ [_ R]].
+  assert (shift_ok s = true) as -> by (apply shift_ok_spec; exact R).
+  unfold tfl_reduce, r_mult. destruct X as [mx ex]. cbn [dm de] in *.
+  destruct (tfl_quantize_multiplier (Dy mx ex)) as [qt st]. cbn [fst snd] in *. subst qt st.
+  f_equal. lia.
+Qed.
+
 (* ---------- add / sub ---------- *)
 Lemma dy_ltb_asym a b : dy_ltb a b = true -> dy_ltb b a = false.
 Proof.
@@ -223,3 +259,12 @@ Example ew_mul_ex :
   ew_mul_scale 53 (Dy 13421773 (-27)) (Dy 10066330 (-25)) (Dy 13421773 (-26)) = (1288490240, 33) /\
   tfl_mul_params 53 (Dy 13421773 (-27)) (Dy 10066330 (-25)) (Dy 13421773 (-26)) = (1288490240, -2).
 Proof. vm_compute. split; reflexivity. Qed.
+
+(* int8 conv, scales float32 0.1 / 0.3 / 0.2: the double-product rule and the float-product rule differ *)
+Example conv_packed_ex :
+  conv_packed_scale 53 false (Dy 13421773 (-27)) (Dy 10066330 (-25)) (Dy 13421773 (-26)) = (1288490240, 33) /\
+  tfl_conv_params 53 (Dy 13421773 (-27)) (Dy 10066330 (-25)) (Dy 13421773 (-26)) = (1288490240, -2) /\
+  conv_packed_scale 24 false (Dy 13421773 (-27)) (Dy 10066330 (-25)) (Dy 13421773 (-26)) = (1288490221, 33) /\
+  conv_packed_scale 53 true (Dy 13421773 (-27)) (Dy 10066330 (-25)) (Dy 13421773 (-26)) = (19661, 17) /\
+  tfl_reduce (1288490240, -2) = (19661, 17).
+Proof. vm_compute. repeat split; reflexivity. Qed.
